@@ -301,6 +301,15 @@ def rein (c impl : List String) : Option Verdict := do
            else if ts != want then "the re-initialised interface does not advertise like a freshly initialised one (initial RA at once, the next MIN_DELAY_BETWEEN_RAS later)"
            else "" }
 
+/-- `rein5 …` — the same scenario under C05: a link-state change is not a stop, so the re-established
+    interface requests unsolicited multicast RAs again (as many transmissions in the window as a fresh
+    start has; their exact instants are C06's concern, and a transmission that schedgroup fires late
+    or not at all — K-2 — is not the loop's doing) -/
+def rein5 (c impl : List String) : Option Verdict := do
+  let v ← rein c impl
+  let late := v.agreeOverride == some true
+  pure { v with oracle := v.oracle || late, note := if late then "" else v.note }
+
 /-- `reinlla tf nd (idx mac)* | nconn lla*`: the interface is re-established `nd - 1` times inside
     one Run (link-state changes); dial `k` finds the interface with index `idx k` and hardware
     address 02:00:00:00:00:`mac k` (`0`: none).  The first RA on every connection must carry the
